@@ -113,7 +113,7 @@ func cmdVerify(args []string) {
 	sem := make(chan struct{}, *jobs)
 	for i, k := range keys {
 		c := cs.ByKey[k]
-		if c.AssumeDep != "" || c.NoBody {
+		if c.AssumeDep != "" || c.NoBody || c.Havoc != "" {
 			results[i] = &FuncResult{Key: k, Props: c.Props, AssumedOnly: true}
 			continue
 		}
